@@ -128,6 +128,10 @@ class QueryCheck:
                     run.samples.append({"case": {k2: v for k2, v in by_id[t["id"]].items() if not k2.startswith("_")},
                                         "observed": t["evs"]})
             tr_by_id = {t["id"]: t for t in traces}
+            import os as _os
+            if _os.environ.get("VERIF_DEBUG_DRIFT") and run.drift:
+                json.dump([{"drift": d, "trace": tr_by_id.get(d["id"])} for d in run.drift[:20]],
+                          open("/tmp/drift.json", "w"))
             f2, covered = (None, set()) if classify else cache_index_findings(run, [by_id[tid] for tid in rej])
             for tid, rs in rej.items():
                 t = tr_by_id[tid]
@@ -161,6 +165,9 @@ def check_C01(tier, seed):
     qc = QueryCheck(run)
     rng = qc.rng
     quick = tier == "quick"
+    # Layer B against Layer A: the mechanism model yields exactly the filter of the domain, in order, each once
+    run.mc("MechCheck", "mech-exact", constants=dict(G="G12", NV=1, LeafLimit=24 if quick else 45, MaxLeaves=2,
+                                                      MaxNot=1 if quick else 2, NeedNot=False), invariants=("MechEqualsSem",))
     progs = run.export("GenQuery", "G1-bfs", "PROG", constants=dict(
         G="G12", NV=1, LeafLimit=12 if quick else 45, MaxLeaves=2, MaxNot=1 if quick else 2, NeedNot=False),
         invariants=("Export", "WellFormed"))
@@ -171,12 +178,12 @@ def check_C01(tier, seed):
     for p in progs:
         dom = list(range(1, 10))
         rng.shuffle(dom)
-        qc.add(cov, [mk_query(p, [dom])], [drain_ev()])
+        qc.add(cov, [mk_query(p, [dom])], [drain_ev()], dump_graph=True)
         if not quick or rng.random() < 0.5:
             W = datasets.random_world(rng, rng.randint(2, 6))
             dom = list(range(1, len(W["objs"]) + 1))
             rng.shuffle(dom)
-            qc.add(W, [mk_query(p, [dom])], [drain_ev()])
+            qc.add(W, [mk_query(p, [dom])], [drain_ev()], dump_graph=True)
     qc.execute(_nontrivial_rows)
     return run.finish()
 
@@ -219,6 +226,8 @@ def check_C02(tier, seed):
     qc = QueryCheck(run)
     rng = qc.rng
     quick = tier == "quick"
+    run.mc("MechCheck", "mech-rows", constants=dict(G="G12", NV=2, LeafLimit=12 if quick else 24, MaxLeaves=2,
+                                                     MaxNot=1, NeedNot=False), invariants=("MechEqualsSem",))
     for nv in (2, 3):
         progs = _programs(run, nv, quick, sim_quick=800, sim_full=10000, leaf_quick=9 if nv == 2 else 8,
                           leaf_full=24 if nv == 2 else 16)
@@ -230,7 +239,7 @@ def check_C02(tier, seed):
         for p in progs:
             for _ in range(1 if quick else 2):
                 W, doms = _world_and_doms(rng, nv, quick)
-                qc.add(W, [mk_query(p, doms, declare="random")], [drain_ev()])
+                qc.add(W, [mk_query(p, doms, declare="random")], [drain_ev()], dump_graph=True)
     qc.execute(_nontrivial_rows)
     return run.finish()
 
@@ -250,6 +259,9 @@ def check_C03(tier, seed):
     qc = QueryCheck(run)
     rng = qc.rng
     quick = tier == "quick"
+    # Layer B: Not() as a construction-time rewrite (De Morgan, flag toggling, operator table) preserves the complement
+    run.mc("MechCheck", "mech-negation", constants=dict(G="G12", NV=1, LeafLimit=16 if quick else 30, MaxLeaves=2, MaxNot=2,
+                                                         NeedNot=True), invariants=("MechEqualsSem",))
     for nv in (1, 2):
         progs = _programs(run, nv, quick, sim_quick=600, sim_full=8000, leaf_full=30 if nv == 1 else 20)
         if quick:
@@ -265,7 +277,7 @@ def check_C03(tier, seed):
             p1 = dict(p, cond=_negate(p["cond"], form))
             p2 = dict(p, cond=_negate(_negate(p["cond"], form), form))
             qc.add(W, [mk_query(p, doms), mk_query(p1, doms), mk_query(p2, doms)],
-                   [drain_ev(1), drain_ev(2), drain_ev(3, eqto=1)])
+                   [drain_ev(1), drain_ev(2), drain_ev(3, eqto=1)], dump_graph=True)
 
     def nontrivial(t):
         evs = t["evs"]
